@@ -28,12 +28,15 @@ SlotLx == {Lx("@component(\"c\") {{-- c --}} @slot s @end @end", <<"COMPONENT", 
               <<"COMPONENT", "LPAREN", "STR", "RPAREN", "WS", "SLOT", "LPAREN", "STR", "RPAREN", "HTML", "END", "WS", "WS", "SLOT", "HTML", "END", "WS", "END">>),
            Lx("@component(\"c\") {{ 1 }}", <<"COMPONENT", "LPAREN", "STR", "RPAREN", "WS", "LBRACES", "INT", "RBRACES">>),
            Lx("@component(\"c\") {{-- c --}} {{ 1 }}", <<"COMPONENT", "LPAREN", "STR", "RPAREN", "WS", "WS", "LBRACES", "INT", "RBRACES">>)}
+\* component uses whose slot body is closed by something else than @end, or that lack their own @end
+SloppyLx == {Lx("@component(\"c\")@slot@else", <<"COMPONENT", "LPAREN", "STR", "RPAREN", "SLOT", "ELSE">>),
+             Lx("@component(\"c\")@slot@end", <<"COMPONENT", "LPAREN", "STR", "RPAREN", "SLOT", "END">>)}
 \* an illegal character in a position where the statement parser takes the token as it is
 IllegalLx == {Lx("@each(# in [1])", <<"EACH", "LPAREN", "ILLEGAL", "IN", "LBRACKET", "INT", "RBRACKET", "RPAREN">>),
               Lx("@insert(#)", <<"INSERT", "LPAREN", "ILLEGAL", "RPAREN">>), Lx("@insert(#, 1)", <<"INSERT", "LPAREN", "ILLEGAL", "COMMA", "INT", "RPAREN">>),
               Lx("@slot(#)", <<"SLOT", "LPAREN", "ILLEGAL", "RPAREN">>), Lx("@reserve(#)", <<"RESERVE", "LPAREN", "ILLEGAL", "RPAREN">>),
               Lx("@component(#)", <<"COMPONENT", "LPAREN", "ILLEGAL", "RPAREN">>)}
-Small == {l \in SlotLx : l.src \in {"@component(\"c\") {{-- c --}} @slot s @end @end", "@component(\"c\") {{ 1 }}"}} \cup {l \in IllegalLx : l.src \in {"@each(# in [1])", "@slot(#)"}} \cup {l \in Closed : l.src \in {"t", "{{ 1 }}", "@if(x)", "@elseif(1)", "@else", "@end", "@each(v in [1])", "@insert(\"a\")", "@component(\"c\")", "@slot", "{{ {a: 1 2} }}",
+Small == SloppyLx \cup {l \in SlotLx : l.src \in {"@component(\"c\") {{-- c --}} @slot s @end @end", "@component(\"c\") {{ 1 }}"}} \cup {l \in IllegalLx : l.src \in {"@each(# in [1])", "@slot(#)"}} \cup {l \in Closed : l.src \in {"t", "{{ 1 }}", "@if(x)", "@elseif(1)", "@else", "@end", "@each(v in [1])", "@insert(\"a\")", "@component(\"c\")", "@slot", "{{ {a: 1 2} }}",
                                      "@for(i = 0; i; i + 1)", "@breakIf(x)", "{{ x = 1; x }}"}}
 \* constructs cut in the middle: the lexer is left in code mode (incode), or a string / comment is unterminated (ILLEGAL)
 Open == {Lx("{{ 1", <<"LBRACES", "INT">>), Lx("{{", <<"LBRACES">>), Lx("{{ {a: 1", <<"LBRACES", "LBRACE", "IDENT", "COLON", "INT">>),
@@ -63,7 +66,7 @@ HdrP(ts, k, h) == k + Len(h) - 1 <= Len(ts) /\ \A j \in 1..Len(h) : ts[k + j - 1
 NeverClosedP(ts) == \E k \in 1..Len(ts) : \/ (HdrP(ts, k, <<"INSERT", "LPAREN", "STR", "RPAREN">>) /\ NoEndAfterP(ts, k + 3))
                                           \/ (HdrP(ts, k, <<"COMPONENT", "LPAREN", "STR", "RPAREN", "SLOT">>) /\ NoEndAfterP(ts, k + 4))
 Unclosed(ts) == Count(ts, {"IF", "EACH", "FOR"}) > Count(ts, {"END"}) \/ EndsWithBlockInsert(ts) \/ NeverClosedP(ts)
-Base == IF LexSet = "small" THEN Small ELSE Closed \cup IllegalLx \cup SlotLx
+Base == IF LexSet = "small" THEN Small ELSE Closed \cup IllegalLx \cup SlotLx \cup SloppyLx
 \* every @slot of the input belongs to a component use: the input is made of SlotLx lexemes and lexemes without @slot
 Owned(q) == \A k \in 1..Len(q) : q[k] \in SlotLx \/ Count(q[k].ts, {"SLOT"}) = 0
 MCInputs == {[toks |-> CatToks(q), incode |-> FALSE, open |-> Unclosed(CatToks(q)), src |-> CatSrc(q), owned |-> Owned(q)] : q \in SeqsUpTo(Base, MaxLex)}
